@@ -7,6 +7,10 @@ task, a callback is called, the call returns/raises) is turned into a transition
 worker-pool model (Driver/C13.lean) and the model state is compared with what was observed after
 every transition.  Higher layers (DOE, MDOParallelChain, DiscParallelLinearization, parallel
 finite differences, shared MemoryFullCache) are compared with their sequential counterparts.
+Histories of several `execute()` calls on ONE executor object are run call by call against the session
+model (`call` lines), and workers sharing one full cache that execute then linearize are run under forced
+interleavings of the cache writes, the real cache being compared with the `JCache` model after every write.
+No verdict depends on wall-clock time (see `unusable`, `usable_run`, `SKIP`).
 Oracle: written from the property text (sequential map, callback multiset, failure isolation,
 no hang), never from the model.
 """
